@@ -194,28 +194,46 @@ Definition join (A B : frag F) (s1 s2 : asel) (op : jopts F) (w : jwit F) : opti
   | _, _ => None
   end.
 
-(* molli combine, _ml_assemble:
+(* molli combine, _ml_assemble (as repaired):
      deriv = Molecule(core)
      for i, (ap_i, sub) in enumerate(zip(core_aps, substituent_combo)):
-         deriv = Molecule.join(deriv, sub, ap_i - i, sub.attachment_points[0], optimize_rotation=True)
-   one step = (substituent, radii of the two former neighbours, hidden quantities of that join) *)
+         shift = sum(1 for ap_j in core_aps[:i] if ap_j < ap_i)
+         deriv = Molecule.join(deriv, sub, ap_i - shift, sub.attachment_points[0], optimize_rotation=True)
+   one step = (substituent, radii of the two former neighbours, hidden quantities of that join);
+   `done` = core_aps[:i] *)
 Definition first_ap (l : list atom) : option positive := option_map a_id (find a_ap l).
 Definition cstep := (frag F * (option F * option F) * jwit F)%type.
 Definition combine_opts (nb : list Z) (rC : F) (rc : option F * option F) : jopts F :=
   mkOpts None None None nb (fst rc) (snd rc) rC.
-Fixpoint assemble (nb : list Z) (rC : F) (deriv : frag F) (i : nat) (aps : list Z) (subs : list cstep) : option (frag F) :=
+Definition shift_of (done : list Z) (ap : Z) : Z := Z.of_nat (length (filter (fun j => Z.ltb j ap) done)).
+Fixpoint assemble (nb : list Z) (rC : F) (deriv : frag F) (done : list Z) (aps : list Z) (subs : list cstep) : option (frag F) :=
+  match aps, subs with
+  | [], [] => Some deriv
+  | ap :: aps', (sub, rc, w) :: subs' =>
+      match first_ap (fr_atoms sub) with
+      | Some a2 =>
+          match join deriv sub (ByIdx (ap - shift_of done ap)) (ById a2) (combine_opts nb rC rc) w with
+          | Some d' => assemble nb rC d' (done ++ [ap]) aps' subs'
+          | None => None
+          end
+      | None => None                                   (* attachment_points[0]: IndexError *)
+      end
+  | _, _ => None                                       (* assert len(core_aps) == len(substituent_combo) *)
+  end.
+(* the loop before the repair: index ap_i - i (right only when core_aps is ascending) *)
+Fixpoint assemble_minus_i (nb : list Z) (rC : F) (deriv : frag F) (i : nat) (aps : list Z) (subs : list cstep) : option (frag F) :=
   match aps, subs with
   | [], [] => Some deriv
   | ap :: aps', (sub, rc, w) :: subs' =>
       match first_ap (fr_atoms sub) with
       | Some a2 =>
           match join deriv sub (ByIdx (ap - Z.of_nat i)) (ById a2) (combine_opts nb rC rc) w with
-          | Some d' => assemble nb rC d' (S i) aps' subs'
+          | Some d' => assemble_minus_i nb rC d' (S i) aps' subs'
           | None => None
           end
-      | None => None                                   (* attachment_points[0]: IndexError *)
+      | None => None
       end
-  | _, _ => None                                       (* assert len(core_aps) == len(substituent_combo) *)
+  | _, _ => None
   end.
 (* the same, addressing each attachment point of the core by NAME: what the index arithmetic is meant to do *)
 Fixpoint assemble_named (nb : list Z) (rC : F) (deriv : frag F) (aps : list positive) (subs : list cstep) : option (frag F) :=
@@ -320,18 +338,18 @@ Inductive jcase :=
 | CCombine (core : frag Q) (aps : list Z) (nb : list Z) (rC : Q)
            (subs : list (frag Q * (option Q * option Q) * qwit)) (res : option obs).
 
-Fixpoint assemble_q (nb : list Z) (rC : Q) (deriv : frag Q) (i : nat) (aps : list Z)
+Fixpoint assemble_q (nb : list Z) (rC : Q) (deriv : frag Q) (done : list Z) (aps : list Z)
                     (subs : list (frag Q * (option Q * option Q) * qwit)) : option (frag Q) * bool :=
   match aps, subs with
   | [], [] => (Some deriv, true)
   | ap :: aps', (sub, rc, q) :: subs' =>
       match first_ap (fr_atoms sub) with
       | Some a2 =>
-          let s1 := ByIdx (ap - Z.of_nat i) in
+          let s1 := ByIdx (ap - shift_of done ap) in
           match attach_vectors deriv sub s1 (ById a2) with
           | Some (v1, v2) =>
               match join QOps deriv sub s1 (ById a2) (combine_opts nb rC rc) (to_wit v1 q) with
-              | Some d' => let '(r, okw) := assemble_q nb rC d' (S i) aps' subs' in (r, (wit_ok true v1 v2 q && okw)%bool)
+              | Some d' => let '(r, okw) := assemble_q nb rC d' (done ++ [ap]) aps' subs' in (r, (wit_ok true v1 v2 q && okw)%bool)
               | None => (None, true)
               end
           | None => (None, true)
@@ -349,5 +367,5 @@ Definition check (k : jcase) : bool :=
       | None => match res with None => true | Some _ => false end
       end
   | CCombine core aps nb rC subs res =>
-      let '(r, okw) := assemble_q nb rC core 0 aps subs in (okw && result_matches eps_join r res)%bool
+      let '(r, okw) := assemble_q nb rC core [] aps subs in (okw && result_matches eps_join r res)%bool
   end.
